@@ -249,6 +249,14 @@ func C05(p *core.Program, r *core.Report) {
 				}
 			}
 			r.Check(ok, key, rule, p.Pos(cs.Pos()), "", "not on the DeliveredBundle arm; "+condStrings(conds))
+			// the record is looked up without fragment coordinates: a report about one fragment must not release the bundle
+			okWhole := false
+			for _, c := range conds {
+				if pathEndsWith(c.V, "RefBundle", "IsFragment") && !c.True {
+					okWhole = true
+				}
+			}
+			r.Check(okWhole, key+"/whole-bundle-only", "a 'delivered' report releases the stored bundle only if it refers to the bundle as a whole (Store.QueryId drops the fragment coordinates of the reference: a report about one delivered fragment would delete the whole bundle kept for forwarding)", p.Pos(cs.Pos()), "", "Store.Delete is reachable for a report whose RefBundle.IsFragment is set")
 		case "pkg/storage.Store.DeleteExpired":
 			r.OK(key, rule, p.Pos(cs.Pos()), "expiry sweep (Expires computed by calcExpirationDate, checked below)")
 		default:
